@@ -217,6 +217,10 @@ def joinOracleStep (w n : Nat) (o : JSt) (t resp : String) : JSt :=
                         resolved := o.resolved ++ polled.filter (o.rdy.contains ·) }
       let inflight := o.pulled - o.emitted
       let o := if polled.any (fun i => i < o.emitted ∨ i ≥ o.pulled) then jflag o "a future outside the window was polled" else o
+      -- "a window of w": never more than w tasks drawn and not yet handed out (counted against the REQUESTED
+      -- window, after this call's draws and before its result is handed out), however often the join is re-polled
+      let o := if inflight > w then
+          jflag o s!"{inflight} tasks in flight (drawn from the source, result not yet handed out) with a window of {w}" else o
       if out.startsWith "I" then
         let id := ((out.drop 1).toString.toNat?).getD 0
         let o := if id ≠ o.emitted then jflag o s!"item {id} emitted, expected {o.emitted} (order / exactly once)" else o
@@ -262,6 +266,16 @@ def oracle (toks : List String) (impl : String) : Option String :=
       let items := outs.filter (·.startsWith "I")
       let want := (List.range n).map fun i => s!"I{i}"
       if items ≠ want.take items.length then return "fails items out of order"
+      -- bounded window: tasks drawn minus results handed out never exceeds w (at the peak of each call)
+      let mut drawn := 0
+      let mut emitted := 0
+      for r in impl.splitOn " " do
+        match ((r.splitOn "@").getD 0 "").splitOn "/" with
+        | [out, _, pulled] =>
+          drawn := drawn + pulled.toNat?.getD 0
+          if drawn - emitted > w then return s!"fails {drawn - emitted} tasks in flight (drawn from the source, result not yet handed out) with a window of {w}"
+          if out.startsWith "I" then emitted := emitted + 1
+        | _ => pure ()
       -- dependencies within the window: the join must complete within 2n+1 polls
       if d + 1 ≤ w ∧ polls ≥ 2 * n + 1 then
         if items.length ≠ n ∨ !outs.contains "N" then return s!"fails no completion within {polls} polls although dependencies reach only {d} < window {w}"
